@@ -328,6 +328,8 @@ int assemble_all(assemblyline_t al, const char *str, int *dest) {
   if (dest != NULL)
     *dest = 0;
   const char *tokenizer = str;
+  // a negative offset (left by a failed call) is not a position in the buffer
+  FAIL_IF_ERR(al->offset < 0);
   unsigned int buf_pos = al->offset;
   // read str and assemble instruction line by line
   while (*tokenizer != '\0') {
